@@ -93,7 +93,7 @@ def check(case, M):
 
 def corpus():
     return [
-        # prefix completeness lost through a zero-cost rule with arguments (C03-F5 = C02-F4 seen on a prefix)
+        # prefix completeness lost through a zero-cost rule with arguments (C03-F8 = C02-F6 seen on a prefix)
         {"family": "fin", "build": {"src": "prims", "prims": B.CHAIN_DSLS[1], "forbidden": [], "request": "bool", "kind": "cfg", "max_depth": 4, "min_var": 1, "n_gram": 2},
          "order": "reversed", "oseed": 0, "costs": {"mode": "int", "kind": "zero-any", "cseed": 11}, "filter": None, "merges": [], "prefix": 13, "fseed": None},
         {"family": "rec", "dsl": 0, "n_gram": 1, "order": "built", "oseed": 0, "costs": {"mode": "prob", "weights": "dyadic", "wseed": 4, "threshold": 1},
